@@ -445,6 +445,10 @@ def composites(check, prog, canon):
     check.require(ok, 'M6-rigid-translation', 'Scatterers.translated',
                   'every member is translated by one and the same vector',
                   prog.loc(q, fd), fail_detail='translated builds %s' % show(v)[:200])
+    scatterer_translated(check, prog)
+
+
+def scatterer_translated(check, prog):
     q = 'holopy.scattering.scatterer.scatterer.Scatterer.translated'
     fd = prog.func(q)
     it = Interp(prog, max_depth=1, opaque=['holopy.core.utils.ensure_array'])
